@@ -7,7 +7,7 @@ NT = set("multi-broker-call,partial-failure,unaware-request-exhausted-all-hosts"
 
 
 class Eng(cl.CLEngine):
-    MACROS = ["warmup", "warmup", "partial", "partial", "notleader", "timeout", "remove", "silentboot", "silentboot", "readdress", "readdress"]
+    MACROS = ["warmup", "warmup", "partial", "partial", "notleader", "timeout", "remove", "silentboot", "silentboot", "readdress", "readdress", "twoaddr", "twoaddr"]
     MACRO_ONE_IN = 8
 
     def nontrivial(self):
